@@ -202,7 +202,50 @@ def w = a2;
     return text, [[v["g0"], r2, r2], xa, xb, xa, rec, v["g0"], v["g3"]]
 
 
-SCOPE = [prog_late_def, prog_shadow, prog_counter, prog_curry, prog_recursion, prog_assign_capture, prog_params]
+def prog_destructure_assign(v):
+    """`[t1, t2] = ...` updates, per target, the nearest enclosing binding -- the targets live at different
+    (symbolically chosen) scope levels and are listed in either order; it never creates a binding"""
+    text = """
+def x = g0; def y = g1;
+def outer(y) do
+  if d1 == 1 then do def x = g2 end;
+  def inner() do
+    if d2 == 1 then do def y = g3 end;
+    if as2 == 1 then do def x = step end;
+    if as1 == 1 then [x, y] = [a1, a2] else [y, x] = [a2, a1];
+    [x, y]
+  end;
+  def r = inner();
+  [r, x, y]
+end;
+def res = outer(step + 10);
+def t = do def h(k) do [fresh_q, k] = [1, 2]; k end; h(0) catch all 'no binding' end;
+def u = do def h2(k) do [k, fresh_q] = [1, 2]; k end; h2(0) catch all 'no binding' end;
+def w = do fresh_q catch all 'undefined' end;
+[res, x, y, t, u, w]
+"""
+    G = Env()
+    G.define("x", v["g0"])
+    G.define("y", v["g1"])
+    E1 = Env(G)
+    E1.define("y", v["step"] + 10)
+    if v["d1"] == 1:
+        E1.define("x", v["g2"])
+    E2 = Env(E1)
+    if v["d2"] == 1:
+        E2.define("y", v["g3"])
+    if v["as2"] == 1:
+        E2.define("x", v["step"])
+    E2.assign("x", v["a1"])
+    E2.assign("y", v["a2"])
+    r = [E2.get("x"), E2.get("y")]
+    # (a failed destructuring assignment may have assigned the targets before the undefined one -- the property
+    # only says that no binding is created, so h / h2 only name their own parameter besides the undefined name)
+    return text, [[r, E1.get("x"), E1.get("y")], G.get("x"), G.get("y"), "no binding", "no binding", "undefined"]
+
+
+SCOPE = [prog_late_def, prog_shadow, prog_counter, prog_curry, prog_recursion, prog_assign_capture, prog_params,
+         prog_destructure_assign]
 
 # ---- call forms ------------------------------------------------------------------------------------
 DEF = "def f(a, b = a + 10, c = 7, rest...) [a, b, c, rest...]; "
